@@ -89,8 +89,33 @@ def gen_coqproject():
     return False
 
 
-def coq_make(timeout=3000):
-    """Full .vo build of the development (incremental; no -vos). Serialised by a file lock."""
+def dep_closure(target_rel):
+    """.v files (relative to coq/) that target_rel (e.g. 'props/C18.v') transitively depends on, incl. itself."""
+    r = subprocess.run(["coqdep", "-f", "_CoqProject"], cwd=COQ, stdout=subprocess.PIPE, stderr=subprocess.DEVNULL, text=True)
+    deps = {}
+    for line in r.stdout.splitlines():
+        if ":" not in line:
+            continue
+        lhs, rhs = line.split(":", 1)
+        tg = [t for t in lhs.split() if t.endswith(".vo")]
+        if not tg:
+            continue
+        src = tg[0][:-1]
+        deps[src] = [d[:-1] for d in rhs.split() if d.endswith(".vo")]
+    seen, todo = set(), [target_rel]
+    while todo:
+        x = todo.pop()
+        if x in seen:
+            continue
+        seen.add(x)
+        todo += deps.get(x, [])
+    return seen
+
+
+def coq_make(timeout=3000, target=None):
+    """Full .vo build of the development (incremental; no -vos). Serialised by a file lock.
+    With target='props/Cxx.v' a failure in a file outside that file's dependency closure is only
+    reported in the log (other properties' files may be mid-edit); setup.sh always demands a full build."""
     import fcntl
     t0 = time.time()
     os.makedirs(os.path.join(COQ, "cases"), exist_ok=True)
@@ -101,9 +126,19 @@ def coq_make(timeout=3000):
         if changed or not os.path.exists(os.path.join(COQ, "Makefile")):
             subprocess.run(["coq_makefile", "-f", "_CoqProject", "-o", "Makefile"], cwd=COQ, check=True,
                            stdout=subprocess.DEVNULL)
-        r = subprocess.run(["timeout", str(timeout), "make", "-j16"], cwd=COQ, stdout=subprocess.PIPE,
+        r = subprocess.run(["timeout", str(timeout), "make", "-k", "-j16"], cwd=COQ, stdout=subprocess.PIPE,
                            stderr=subprocess.STDOUT, text=True)
-        return r.returncode == 0, r.stdout, time.time() - t0
+        ok = r.returncode == 0
+        log = r.stdout
+        if not ok and target:
+            failed = set(re.findall(r'File "\./([^"]+\.v)"', log))
+            failed |= {m[:-1] for m in re.findall(r"\[(?:Makefile[^\]]*: )?([\w/]+\.vo)\] Error", log)}
+            clo = dep_closure(target)
+            relevant = failed & clo
+            if failed and not relevant:
+                ok = True
+                log = f"[note] unrelated files failed to build: {sorted(failed)}\n" + log
+        return ok, log, time.time() - t0
     finally:
         fcntl.flock(lock, fcntl.LOCK_UN)
         lock.close()
